@@ -22,7 +22,7 @@ def salted_methods():
 def make_jobs(seed, tier):
     jobs = []
     nrs = list(range(0, 65)) + ([96, 128, 256] if tier == "quick" else list(range(65, 257)))
-    pats = ["rnd", "zero", "ff"]
+    pats = ["rnd", "zero", "ff"] + (["rnd%d" % k for k in range(6)] if tier == "thorough" else [])
     for m in facts.GENSALT_METHODS + [None]:
         for nr in nrs:
             jobs.append((m, nr, pats if (tier == "thorough" or nr <= 24 or nr in (32, 48, 64)) else pats[:1], seed))
